@@ -452,7 +452,7 @@ func (vt *Model) print(seq ansi.Print) {
 
 	if vt.mode.irm {
 		line := vt.activeScreen[rw]
-		for i := vt.margin.right; i > col; i -= 1 {
+		for i := vt.margin.right; i >= col+column(w); i -= 1 {
 			line[i] = line[i-column(w)]
 		}
 	}
